@@ -129,6 +129,27 @@ def m_dup_toplevel(rng, fs):
     consts = [x for x in tops if x[2][0] == "const"]
     B = copy.deepcopy(fs)
     r = rng.random()
+    incs_ = [f for f in fs["files"] if f["path"] != fs["main"] and "/" not in f["path"] and f["decls"]]
+    if incs_ and rng.random() < 0.3:
+        # a second copy of an included file under the same file name in another directory (a vendored
+        # tree), one declaration changed, both copies reached: the names are declared twice
+        src = rng.choice(incs_)
+        cp = copy.deepcopy(src)
+        cp["path"] = "vendor/" + src["path"]
+        cp["includes"] = []
+        j = rng.randrange(len(cp["decls"]))
+        d = cp["decls"][j]
+        if d[0] == "iface":
+            cp["decls"][j] = (d[0], d[1], None, [("error", "E_VENDOR_ONLY")] + [m for m in d[3] if m[0] != "method"] + [("method", "vendor_only", [], False, None)])
+        elif d[0] == "struct":
+            cp["decls"][j] = (d[0], d[1], [("uint64", 1, "vendor_only")])
+        else:
+            cp["decls"][j] = ("const", "uint8", d[2], "1")
+        cp["decls"] = [cp["decls"][j]]
+        B["files"].append(cp)
+        mainf = [f for f in B["files"] if f["path"] == B["main"]][0]
+        mainf["includes"] = list(mainf["includes"]) + [cp["path"]]
+        return B, {"rule": "dup_toplevel_type" if d[0] != "const" else "dup_toplevel_const", "where": "inc", "same_named_file": True}
     if r < 0.4 and types:
         fi, di, d = rng.choice(types)
         tf = rng.randrange(len(fs["files"]))
